@@ -15,6 +15,7 @@ import (
 	"verif/harness/internal/core"
 	"verif/harness/internal/gen"
 	"verif/harness/internal/model"
+	"verif/harness/internal/wire"
 )
 
 // KV is one observed bin.
@@ -489,4 +490,32 @@ func (s *MonStore) Check(o CheckOpts) {
 	s.C.Guard("observers:"+s.Spec.KindName(), func() { CheckStore(s.C, s.Spec.KindName(), s.St, s.M, o) })
 	after := store.VerifLayoutOf(s.St)
 	s.layoutEvents("observe", before, after, true)
+}
+
+// DecodeBlock decodes one hand-written store block (any of the three documented bin layouts, with whatever signed
+// deltas or stride its author chose) into the store: the documentation assigns it the bins blk.Bins(), added to
+// what the store holds.
+func (s *MonStore) DecodeBlock(blk *wire.Block) {
+	bins := blk.Bins()
+	s.C.Logf("%s.DecodeAndMergeWith(hand-written %s block, %d bins, first %d stride %d)", s.Name, blk.Name(), len(bins), blk.First, blk.Stride)
+	b := wire.EmitBlock(nil, blk)
+	s.around("DecodeBlock", false, func() {
+		rest := b
+		flag, err := enc.DecodeFlag(&rest)
+		if err != nil {
+			s.C.Failf("store.decode.flag", "DecodeFlag: %v", err)
+			return
+		}
+		if err := s.St.DecodeAndMergeWith(&rest, flag.SubFlag()); err != nil {
+			s.C.Failf("store.decode.error:"+s.Spec.KindName(), "DecodeAndMergeWith of a well-formed %s block: %v", blk.Name(), err)
+			return
+		}
+		if len(rest) != 0 {
+			s.C.Failf("store.decode.leftover:"+s.Spec.KindName(), "DecodeAndMergeWith left %d bytes of a %s block unread", len(rest), blk.Name())
+		}
+	})
+	for _, bn := range bins {
+		s.M.Add(int(bn.Index), bn.Count)
+	}
+	s.C.Count("decode_block."+blk.Name(), 1)
 }
